@@ -171,6 +171,9 @@ func (g *genCtx) opt(used map[string]bool, idx int) OptSpec {
 		o.Required = true
 		if rapid.Bool().Draw(t, "reqmsg") {
 			o.RequiredMsg = "please give " + strings.ToUpper(o.Name) + " now"
+			if rapid.IntRange(0, 3).Draw(t, "reqpct") == 0 {
+				o.RequiredMsg = "need " + strings.ToUpper(o.Name) + " (100% %s %d required)"
+			}
 		}
 	}
 	if g.cfg.Env && (o.Kind == KBool || o.Kind.IsScalar()) && rapid.IntRange(0, 2).Draw(t, "env") == 0 {
@@ -251,6 +254,7 @@ func GenProg(t *rapid.T, cfg GenCfg) *ProgSpec {
 	p := &ProgSpec{}
 	g.spec = p
 	p.Mode = rapid.SampledFrom(cfg.Modes).Draw(t, "mode")
+	p.ModeLate = rapid.IntRange(0, 3).Draw(t, "modelate") == 0
 	p.UnknownMode = rapid.SampledFrom(cfg.UnkModes).Draw(t, "unkmode")
 	switch cfg.RequireOrder {
 	case 1:
@@ -461,6 +465,9 @@ func (a *ArgvGen) spellOption(l *Level, key string) []string {
 			v := val("v")
 			if v == "" {
 				return []string{head}
+			}
+			if rapid.IntRange(0, 3).Draw(t, "sdeq") == 0 {
+				return []string{head + "=" + v} // in SingleDash mode the '=' belongs to the value
 			}
 			return []string{head + v}
 		}
